@@ -104,6 +104,12 @@ func runC35(rc *RC) {
 	compactBase := kind == 2 || kind == 3 || ((kind == 5 || kind == 6) && rc.Pct(50))
 	g.noBaseCollections = compactBase
 	specs := g.baseCity(true)
+	// the worlds are built later, after operations have been generated and
+	// recorded in the generator's own copy of the city: build from a snapshot
+	// of the city as it is now (commit() edits the generator's specs in place)
+	for i := range specs {
+		specs[i] = specs[i].clone()
+	}
 	cache := []int{1, 2, 4, 8}[rc.Draw(4)]
 	rc.Knob("world-kind", kind)
 	if compactBase {
@@ -116,6 +122,7 @@ func runC35(rc *RC) {
 	// features whose tag lists were appended to in place.
 	baseShape := 0
 	var baseOps []op
+	var hot []b6.FeatureID // features whose tags the overlay merges on every read
 	if (kind == 1 || kind == 5) && !compactBase && rc.Pct(50) {
 		baseShape = 1 + rc.Draw(kind%5+1) // kind 1: 1 or 2; kind 5: 1
 		// a few features take most of the edits: several appended keys and a
@@ -126,40 +133,45 @@ func runC35(rc *RC) {
 				focus = append(focus, id)
 			}
 		}
-		for n := rc.Range(2, 10); n > 0; n-- {
-			o := g.genTagOp()
-			if len(focus) > 0 && rc.Pct(70) {
-				o.ID = focus[rc.Draw(len(focus))]
-				if o.Kind == "addtag" && rc.Pct(70) {
-					g.valueCounter++
-					o.Key = fmt.Sprintf("base%d", g.valueCounter)
-				}
-			}
-			if o.Kind == "addtag" && rc.Pct(30) {
-				o.Key = []string{"#amenity", "#building", "note"}[rc.Draw(3)]
-			}
+		addBase := func(o op) {
 			if g.specs[o.ID] != nil {
 				baseOps = append(baseOps, o)
 				g.commit(o)
 			}
 		}
+		for _, id := range focus {
+			// two appended keys and the removal of one: whatever the list's
+			// capacity was, it now has room to spare
+			g.valueCounter += 2
+			k1, k2 := fmt.Sprintf("base%d", g.valueCounter-1), fmt.Sprintf("base%d", g.valueCounter)
+			addBase(op{Kind: "addtag", ID: id, Key: k1, Val: "x"})
+			addBase(op{Kind: "addtag", ID: id, Key: k2, Val: "y"})
+			addBase(op{Kind: "removetag", ID: id, Key: k1})
+		}
+		for n := rc.Range(0, 6); n > 0; n-- {
+			o := g.genTagOp()
+			if o.Kind == "addtag" && rc.Pct(30) {
+				o.Key = []string{"#amenity", "#building", "note"}[rc.Draw(3)]
+			}
+			addBase(o)
+		}
+		hot = focus
 	}
 	rc.Knob("base-shape", baseShape)
 	var overlayOps []op
-	var hot []b6.FeatureID // features whose tags the overlay merges on every read
 	if kind == 1 || kind == 5 {
 		// plain keys added to base features: held as tag modifications and
 		// merged into the base feature's tags by every read
-		for n := rc.Range(0, 3); n > 0; n-- {
+		for n := rc.Range(min(1, len(hot)), 3); n > 0; n-- {
 			if id, ok := g.anyExistingID(); ok {
 				// prefer features the base edited in place, and keys the
 				// feature does not have yet (a pure addition)
-				if len(baseOps) > 0 && rc.Pct(70) {
-					id = baseOps[rc.Draw(len(baseOps))].ID
+				if len(hot) > 0 && rc.Pct(80) {
+					id = hot[rc.Draw(len(hot))]
 				}
 				g.valueCounter++
 				key := []string{"levels", "note", "name"}[rc.Draw(3)]
-				if rc.Pct(60) {
+				if rc.Pct(70) {
 					key = fmt.Sprintf("extra%d", g.valueCounter)
 				}
 				o := op{Kind: "addtag", ID: id, Key: key, Val: fmt.Sprintf("v%d", g.valueCounter)}
@@ -260,6 +272,13 @@ func runC35(rc *RC) {
 		if err != nil {
 			return nil, err
 		}
+		for _, id := range hot {
+			if f := bw.FindFeatureByID(id); f != nil {
+				if t := f.AllTags(); cap(t) > len(t) {
+					rc.Probe("base-feature-tag-list-has-spare-capacity")
+				}
+			}
+		}
 		o := ingest.NewMutableOverlayWorld(bw)
 		if baseShape == 2 {
 			for _, x := range baseOps {
@@ -324,6 +343,20 @@ func runC35(rc *RC) {
 			rc.Case(r, q.String())
 		}
 	}
+	if len(hot) > 0 {
+		readers := 0
+		for r := range plans {
+			for _, q := range plans[r] {
+				if q.kind == "find" || q.kind == "each" || (q.kind == "feature" && q.id == hot[0]) {
+					readers++
+					break
+				}
+			}
+		}
+		if readers >= 2 {
+			rc.Probe("two-readers-read-a-feature-with-merged-tags")
+		}
+	}
 	// expected answers: each query alone, on the twin
 	for r := range plans {
 		for _, q := range plans[r] {
@@ -338,6 +371,12 @@ func runC35(rc *RC) {
 		wg.Add(1)
 		simrt.GoNamed(fmt.Sprintf("reader%d", r), func() {
 			defer wg.Done()
+			// first without formatting anything (touch.go: fmt's pooled
+			// printer would order the readers for the race detector) ...
+			for _, q := range plans[r] {
+				q.touch(w)
+			}
+			// ... then the pass whose answers are compared
 			for _, q := range plans[r] {
 				got[r] = append(got[r], q.run(w))
 			}
